@@ -145,7 +145,7 @@ def run(P, rep, tier):
                         continue          # the indentation string itself (b' ' * indent)
                     if isinstance(d_, Unk):
                         from sa.props.reader_rules import src_chain
-                        if not any(x.src and x.src[0] == 'summary-elem' and 'split_lines' in x.src[1] for x in src_chain(d_)):
+                        if not any(x.src and x.src[0] in ('summary-elem', 'summary') and 'split_lines' in str(x.src[1]) for x in src_chain(d_)):
                             order_bad['indent-lines'] = ('indentation is written before pieces that are not lines of split_lines(content, '
                                                          'newline) on the section\'s own newline (e.g. bytes.splitlines(), which also '
                                                          'breaks on a bare CR): the reader cannot undo it')
@@ -252,3 +252,8 @@ def run(P, rep, tier):
     writer_scope_rule(P, rep, r7b)
     r8 = rep.rule('C01-R8', 'line endings are detected from the first line (function shared by writer and reader)', reference=1)
     first_line_detection(P, rep, r8)
+    r9 = rep.rule('C01-R9', 'the line splitting both sides apply between encoding and indentation is lossless and splits on exactly '
+                  'the section newline (the rules of C16 hold for split_lines)', reference=1)
+    from sa.props.common import split_lossless_rule
+    split_lossless_rule(P, rep, r9, tier, 'indentation is inserted / removed at places that are not line starts, or bytes are '
+                        'fabricated or lost between write and read')
